@@ -62,6 +62,15 @@ Theorem C11_slot_budget_irrelevant : forall t layout fuel, length t <= fuel ->
   expand_all fuel t [] layout = layout_slots t layout.
 Proof. exact layout_slots_fuel_irrelevant. Qed.
 Print Assumptions C11_slot_budget_irrelevant.
+(* what the source says now (regenerated on every run): evalSlot tests the slot's name against the WHOLE chain of
+   inherited slots under expansion, expands a supplied content only when that test fails, and pushes the name
+   on a copy of the chain for that expansion only *)
+Theorem C11_slot_chain_in_source :
+  slot_chain_test = bs "expanding = expanding || name == slotName" /\
+  slot_chain_cond = bs "slotContent != nil && !expanding" /\
+  slot_chain_push = bs "ctx.inheritedSlots = append(ctx.inheritedSlots[:len(ctx.inheritedSlots):len(ctx.".
+Proof. vm_compute. repeat split. Qed.
+Print Assumptions C11_slot_chain_in_source.
 (* the twin that remembers only the innermost slot being expanded does not end on two contents that use each
    other, whatever the budget (a one-name memory, or none as before repair a290021, is not enough) *)
 Theorem C11_one_name_memory_diverges : exists t layout, forall fuel, seq_opt (expand_inner fuel t None) layout = None.
